@@ -143,14 +143,19 @@ prop("C14", "fault_enumeration",
                   "within the stated caps, for F2/F3"])
 
 prop("C15", "exploration",
-     quick=[("hostile", "san", 700), ("hostile", "fast", 1200)],
-     thorough=[("hostile", "san", 30000), ("hostile", "fast", 60000), ("mixed", "san", 5000), ("tracks", "san", 5000)],
-     relevant=["hostile_call_threw", "hostile_call_completed"],
+     quick=[("hostile", "san", 700), ("hostile", "fast", 1200), ("tracks_twice", "fast", 500), ("mixed_twice", "fast", 300),
+            ("hostile_twice", "fast", 300)],
+     thorough=[("hostile", "san", 30000), ("hostile", "fast", 60000), ("mixed", "san", 5000), ("tracks", "san", 5000),
+               ("tracks_twice", "fast", 30000), ("mixed_twice", "fast", 20000), ("hostile_twice", "fast", 20000), ("table_twice", "fast", 10000)],
+     relevant=["hostile_call_threw", "hostile_call_completed", "executed_twice"],
      rule="hostile-caller histories on all 18 schemas under ASan+UBSan+_GLIBCXX_ASSERTIONS: cue/loop indices -1..9 and extremes, "
           "0..12 cue/loop entries, labels 0..300 bytes incl. NUL and invalid UTF-8, waveform with sample rate/count absent or 0, ids that "
           "never existed or were removed, create_*_after with a crate from another parent/level/removed, odd names, every member of stale "
           "track and crate handles; a run is non-trivial if at least one hostile call was made, distinct if its plan digest is new and it "
-          "reached a new observation hash.  A sanitizer report, abort, SIGSEGV/SIGFPE, watchdog or non-std exception is the violation",
+          "reached a new observation hash.  A sanitizer report, abort, SIGSEGV/SIGFPE, watchdog or non-std exception is the violation.  "
+          "The *_twice profiles execute every plan twice over differently poisoned heap (M_PERTURB) and stack memory and require identical "
+          "strict digests (all observations and the final disk image): a difference means the library read indeterminate memory, which "
+          "ASan/UBSan cannot see",
      assumptions=["a worker death (sanitizer exit code, signal, wall-clock alarm) is attributed to the run whose BEGIN line was flushed last",
                   "deterministic watchdogs: 4e6 SQLite VM ticks per call; inflate no-progress detector; 60 s alarm as backstop only",
                   "once a hostile call whose effect the statement leaves open has completed (e.g. add_track of a nonexistent id), the forest/"
